@@ -161,26 +161,26 @@ EditAppend(id) ==
     /\ UNCHANGED <<oroot, croot, proto, stack, status, phase, nmut, otree, fired, hist>>
 
 ShiftKeys(kids, pos) == [i \in 1..Len(kids) |-> <<IF kids[i][1].n >= pos THEN IKey(kids[i][1].n + 1) ELSE kids[i][1], kids[i][2]>>]
-InsertAt(s, pos, e) == SubSeq(s, 1, pos) \o <<e>> \o SubSeq(s, pos + 1, Len(s))     \* pos = number of entries before e
+C19InsertAt(s, pos, e) == SubSeq(s, 1, pos) \o <<e>> \o SubSeq(s, pos + 1, Len(s))     \* pos = number of entries before e
 
 EditInsert(id, pos) ==
     /\ phase = "ready" /\ nedit < MaxEdits /\ IsList(heap[id].n) /\ pos < Len(heap[id].py)
     /\ LET c == heap[id]  nid == NextId(heap)
            shifted == ShiftKeys(c.kids, pos)
-           kids2 == IF InsertKeepsMapOrder THEN Append(shifted, <<IKey(pos), nid>>)
-                    ELSE InsertAt(shifted, pos, <<IKey(pos), nid>>)
-           py1 == InsertAt(c.py, pos, <<IKey(pos), nid>>)
+           py1 == C19InsertAt(c.py, pos, <<IKey(pos), nid>>)
            py2 == [i \in 1..Len(py1) |-> <<IKey(i - 1), py1[i][2]>>]
+           \* list.py:109-115: since fix 0b7069a the child map is rebuilt from the list (dict(enumerate(list)))
+           kids2 == IF InsertKeepsMapOrder THEN Append(shifted, <<IKey(pos), nid>>) ELSE py2
        IN heap' = [heap EXCEPT ![id].kids = kids2, ![id].py = py2] @@ (nid :> NewChildCell(c, FreshLeaf))
     /\ nedit' = nedit + 1 /\ last' = [a |-> "EditInsert", side |-> "orig", id |-> id]
     /\ UNCHANGED <<oroot, croot, proto, stack, status, phase, nmut, otree, fired, hist>>
 
 \* list.reverse() is the inherited built-in: it bypasses the child map (not in C17's list of mutators; used here
 \* only to obtain an original whose two views disagree)
-Reverse(s) == [i \in 1..Len(s) |-> s[Len(s) + 1 - i]]
+C19Reverse(s) == [i \in 1..Len(s) |-> s[Len(s) + 1 - i]]
 EditReverse(id) ==
     /\ phase = "ready" /\ nedit < MaxEdits /\ IsList(heap[id].n) /\ Len(heap[id].py) >= 2
-    /\ LET r == Reverse(heap[id].py)
+    /\ LET r == C19Reverse(heap[id].py)
        IN heap' = [heap EXCEPT ![id].py = [i \in 1..Len(r) |-> <<IKey(i - 1), r[i][2]>>]]
     /\ nedit' = nedit + 1 /\ last' = [a |-> "EditReverse", side |-> "orig", id |-> id]
     /\ UNCHANGED <<oroot, croot, proto, stack, status, phase, nmut, otree, fired, hist>>
